@@ -1,5 +1,27 @@
+import random, os
 KERNELS = {'C01_index': dict(src='kernels/C01_index.cpp', flags=['-DNDEBUG'])}
+
+
 def _arr(n, e): return {'N': n, 'MAXE': e, '_unwind': max(n, 2) + 2}
+
+
+def _big(k):
+    """per-query constant shapes: two fixed ones plus VERIF_SEED-seeded shapes with products near 2^31 and 2^40"""
+    rnd = random.Random(int(os.environ.get('VERIF_SEED', '0') or 0) + 77)
+    out = [{'N': 3, 'SH0': '1048583ul', 'SH1': '2049ul', 'SH2': '3ul'},
+           {'N': 6, 'SH0': '2ul', 'SH1': '3ul', 'SH2': '5ul', 'SH3': '1ul', 'SH4': '3ul', 'SH5': '2ul'}]
+    while len(out) < k:
+        n = rnd.randint(2, 4); bits = rnd.choice([31, 40]); sh = []
+        for i in range(n):
+            b = bits if i == n - 1 else rnd.randint(0, min(bits, 20)); bits -= b
+            sh.append(rnd.randint(1 << b, (1 << (b + 1)) - 1) if b > 0 else rnd.choice([1, 1, 2, 3]))
+        rnd.shuffle(sh)
+        c = {'N': n}
+        for i, v in enumerate(sh): c['SH%d' % i] = '%dul' % v
+        out.append(c)
+    return out
+
+
 HARNESSES = [
  dict(name='arr', src='harnesses/C01.c', func='h_arr', kernels=['C01_index'],
       bounds='std::array shapes of fixed dim N; every extent 1..MAXE, every flat offset < prod(shape), every in-shape multi-index: all symbolic',
@@ -14,5 +36,17 @@ HARNESSES = [
  dict(name='layout3', src='harnesses/C01.c', func='h_layout3', kernels=['C01_index'], unwind=6,
       bounds='row- and column-major hybrid 3-d arrays (buffer capacity 64), extents 1..MAXE, written/read multi-indices symbolic',
       quick=[{'MAXE': 4}], thorough=[{'MAXE': 4}]),
+ dict(name='big', src='harnesses/C01.c', func='h_big', kernels=['C01_index'], unwind=8, backend='cvc5int', optional=True, timeout=60,
+      bounds='shape is a per-query constant (two fixed shapes + VERIF_SEED-seeded shapes with products near 2^31 / 2^40: these are seeded choices, not exhaustive); '
+             'the flat offset is symbolic over the whole shape; decided by cvc5 --solve-bv-as-int=sum on CBMC\'s SMT2 formula',
+      quick=_big(6), thorough=_big(40)),
 ]
-OUTSIDE = ['dims > 6', 'fully symbolic extents beyond the listed MAXE', 'Boost containers', 'compile-time constant shapes (types; see C09)']
+OUTSIDE = ['dims > 6', 'fully symbolic extents beyond the listed MAXE', 'Boost containers', 'compile-time constant shapes (types; see C09)',
+           'huge shapes other than the enumerated per-query constants']
+CLAIM = dict(
+ text='For the listed container kinds the solver shows, for EVERY shape within the stated extents, every flat offset and every in-shape multi-index: '
+      'strides are the trailing products, indices(offset) lies inside the shape, offset/indices are mutually inverse, the map is the row-major Horner form '
+      '(hence order preserving and bijective), ndindex agrees, and row-/column-major arrays address the same logical element at the Horner positions of their layout. '
+      'Huge shapes are per-query constants with the whole offset space symbolic (cvc5 integer encoding).',
+ note='Bounded: dims 1..6, extents <= 8 (quick) / 16 (thorough) symbolic; huge shapes enumerated (seeded), optional queries that time out are listed as no-verdict and not counted. '
+      'Trusted: clang-14 -O1 lowering, engine/ll2c.py, CBMC; validated per run by gate (translated C vs g++ build) and witness assertions.')
